@@ -19,7 +19,7 @@ func Preamble(m Mode) string {
 	fmt.Fprintf(&b, "(declare-datatypes ((Ptr 0)) (((mkptr (p.obj Int) (p.off %s)))))\n", ix)
 	fmt.Fprintf(&b, "(declare-datatypes ((Slice 0)) (((mksl (sl.ptr Ptr) (sl.len %s) (sl.cap %s)))))\n", ix, ix)
 	b.WriteString("(declare-datatypes ((Iface 0)) (((mkif (if.dyn Int) (if.val Ptr)))))\n")
-	b.WriteString("(declare-sort Str 0)\n(define-sort Func () Int)\n(define-sort GInt () Int)\n")
+	b.WriteString("(declare-sort Str 0)\n(define-sort Func () Int)\n(define-sort GInt () Int)\n(define-sort GOwn () Int)\n")
 	fmt.Fprintf(&b, "(declare-fun slen (Str) %s)\n(declare-fun sat (Str %s) %s)\n(declare-fun sconcat (Str Str) Str)\n", ix, ix, ix)
 	b.WriteString("(define-fun tdiv ((a Int) (b Int)) Int (ite (>= a 0) (div a b) (- (div (- a) b))))\n")
 	b.WriteString("(define-fun tmod ((a Int) (b Int)) Int (- a (* b (tdiv a b))))\n")
@@ -32,6 +32,9 @@ func Preamble(m Mode) string {
 	b.WriteString("(assert (forall ((e Iface) (c Int)) (! (=> (= (if.dyn e) 0) (not (errclass e c))) :pattern ((errclass e c)))))\n")
 	fmt.Fprintf(&b, "(declare-fun objsize (Int) %s)\n", ix)
 	b.WriteString("(declare-fun objtype (Int) Int)\n")
+	if !m.BV {
+		b.WriteString("(declare-fun eo (Int Int) Int)\n(assert (forall ((c Int) (i Int)) (! (= (eo c i) (* c i)) :pattern ((eo c i)))))\n")
+	}
 	b.WriteString(TheoryPrelude(m))
 	return b.String()
 }
